@@ -1,9 +1,10 @@
 (** C18.Run — case decoding, model run, and the [Spec] predicates evaluated on the
     implementation's outcome (the failing-input search).  Cases: see harness/src/c18.rs. *)
-From Base Require Import Prelude Sx Json EnumDecl.
-From Gen Require Import StringEnums.
+From Base Require Import Prelude Sx Json JsonText EnumDecl.
+From Gen Require Import StringEnums SerdeSchemas.
 From C19 Require Spec.
 From C18 Require Import Model Spec Bridge.
+From C18 Require Serde SerdeSpec SpecSchemas SerdeBridge.
 
 Definition targets : list (str * target) :=
   [ (s!"AnyTimelineEvent", TTimeline); (s!"AnySyncTimelineEvent", TSyncTimeline);
@@ -59,6 +60,52 @@ Definition spec_event (tg : target) (ev : obj) (shaped : bool) (impl : sx) : boo
   | _ => false                           (* a panic, or acceptance depending on key order *)
   end.
 
+(** * The content clause through the derive model (case kind 4) *)
+Fixpoint raw_nodup (r : raw) : bool :=
+  match r with
+  | RArr l => forallb raw_nodup l
+  | RObj m => Serde.nodup_strs (List.map fst m) && forallb (fun kv => raw_nodup (snd kv)) m
+  | _ => true
+  end.
+
+(** the specification evaluated on the implementation's outcome: a content that conforms to the
+    specification's schema (and uses no ruma-only member name) must be accepted; what was accepted
+    must print without duplicate keys and read back as the same typed value *)
+Definition spec_schema_case (kind ty : str) (t : Serde.ty) (j : json) (impl : sx) : bool :=
+  let must_accept :=
+    match SerdeBridge.find_schema kind ty SpecSchemas.spec_contents with
+    | Some s => SerdeSpec.conforms SerdeBridge.id_valid s j && SerdeSpec.extra_free s t j
+    | None => false
+    end in
+  match impl with
+  | SL [SN 0; SS text] =>
+      match parse_text text with
+      | Some r =>
+          raw_nodup r
+          && match to_canonical r with
+             | Some j2 =>
+                 match Serde.deser SerdeBridge.id_valid t j, Serde.deser SerdeBridge.id_valid t j2 with
+                 | Some v, Some v2 => Serde.val_eqb v v2
+                 | None, _ => true        (* left to the correspondence *)
+                 | Some _, None => false
+                 end
+             | None => true
+             end
+      | None => false
+      end
+  | SL [SN 1; SN _] => negb must_accept
+  | _ => false
+  end.
+
+Definition model_schema_case (t : Serde.ty) (j : json) : sx :=
+  match Serde.deser SerdeBridge.id_valid t j with
+  | Some v => match Serde.ser t v with
+              | Some j' => SL [SN 0; SS (print j')]
+              | None => sx_bad
+              end
+  | None => SL [SN 1; SN 0]
+  end.
+
 Definition run (x : sx) : sx :=
   match x with
   | SL [SL [SN 0; SS tname; ev; shaped; _perm]; impl] =>
@@ -78,6 +125,11 @@ Definition run (x : sx) : sx :=
                            | SL [SN 0; SL [SS stored; SN 1; SN 1]] => str_eqb stored (raw_json text)
                            | _ => false
                            end)]
+  | SL [SL [SN 4; SS kind; SS ty; content]; impl] =>
+      match json_of_sx content, SerdeBridge.find_schema kind ty content_schemas with
+      | Some j, Some t => SL [model_schema_case t j; sx_bool (spec_schema_case kind ty t j impl)]
+      | _, _ => sx_bad
+      end
   | SL [SL [SN 3; SS _t; SS _text]; impl] =>
       SL [SL [SN 0; SL []]; sx_bool (match impl with SL [SN 2] => false | _ => true end)]
   | _ => sx_bad
